@@ -62,10 +62,11 @@ def envDrainOp (args : List String) : String :=
   | some limit, some tail, some flat, some seg, some wd =>
     let cuts := if seg == "-" then [] else (seg.splitOn ",").filterMap String.toNat?
     let s : Script := { chunks := segmentAt flat cuts, tail := tail, withData := wd == "1" }
-    match drain limit s with
+    let saw := if drainSaw limit s then " saw=1" else " saw=0"
+    (match drain limit s with
     | .atEnd => "atEnd"
     | .more => "more"
-    | .failed e => "failed:" ++ showRErr e
+    | .failed e => "failed:" ++ showRErr e) ++ saw
   | _, _, _, _, _ => "bad-op"
 
 def envWriteOp (args : List String) : String :=
